@@ -75,7 +75,16 @@ func (vc *VC) havocFor(h *Heap, ms *ModSet) {
 		}
 		vc.havoc(h, c)
 	}
-	for _, c := range sortedKeys(ms.Fresh) {
+	fresh := ms.Fresh
+	if ms.FreshAll {
+		fresh = map[string]bool{}
+		for c := range vc.compSort {
+			if c != "$alloc" && !strings.HasPrefix(c, "Gcalls_") {
+				fresh[c] = true
+			}
+		}
+	}
+	for _, c := range sortedKeys(fresh) {
 		if ms.Old[c] {
 			continue
 		}
